@@ -11,10 +11,12 @@
 3. real modules: for every node of real modules: child span inside parent span, the node's tokens occur in
    order in the sliced text, the slice neither starts nor ends with white space.
 """
+import json
 import os
 from concurrent.futures import ProcessPoolExecutor
 
 from harness import compat  # noqa: F401
+from harness import tlc
 from harness.core import Ctx, Machinery, Violation, finish
 
 LEVEL = 'model_checking'
@@ -141,6 +143,63 @@ def _check_batch_impl(args) -> dict:
 	return {'failures': failures, 'nodes': nodes_checked}
 
 
+def mark_range(bl: int, bc: int, el: int, ec: int, linelen: int) -> tuple[int, int]:
+	"""spec/PySrc.tla MarkRange (0-based columns)"""
+	hi = ec if bl == el else linelen
+	return bc, (bc + 1 if hi - bc < 1 else hi)
+
+
+def _check_wrapped(args) -> dict:
+	return _guard(_check_wrapped_impl, args)
+
+
+def _check_wrapped_impl(args) -> dict:
+	"""nodes that span several lines (wrapped operands, calls, dict literals, doc strings): the quotation ErrorRender prints
+	for EVERY node of the module must follow MarkRange on the span the node records"""
+	cases, first = args
+	from harness import srcmodel
+	from harness.tranp_env import Env, enter_scratch
+	from rogw.tranp.errors import Errors
+	from rogw.tranp.view.error_render import ErrorRender
+	enter_scratch('verif-c16w-')
+	parts = []
+	for i, c in enumerate(cases):
+		a = c['ast']
+		l, r, op = a['l']['s'], a['r']['s'], a['op']
+		parts.append(f'def w{first + i}({srcmodel.PARAMS}) -> {c["type"]}:\n\t"""doc {i}\n\tsecond line"""\n\tv = ({l} {op}\n\t\t\t{r})\n\tu = max({l},\n\t\t{r})\n\tdd = {{\n\t\t\'k\': {l},\n\t}}\n\treturn ({l} {op}\n\t\t{r})\n')
+	program = '\n'.join(parts)
+	os.makedirs('vm', exist_ok=True)
+	with open('vm/wrapped.py', 'w') as f:
+		f.write(program)
+	lines = program.split('\n')
+	failures, nodes = [], 0
+	module = Env().load('vm.wrapped')
+	failures += _tree_laws(module.entrypoint, lines, 'wrapped layouts')
+	for node in module.entrypoint.procedural():
+		sm = node.source_map
+		(bl, bc), (el, ec) = sm['begin'], sm['end']
+		if (bl, bc, el, ec) == (0, 0, 0, 0) or type(node).__name__ in ('Empty', 'Proxy'):
+			continue
+		nodes += 1
+		try:
+			raise Errors.OperationNotAllowed(node, 'verif')
+		except Errors.OperationNotAllowed as raised:
+			qlines = str(ErrorRender(raised)).split('\n')
+		try:
+			at = next(k for k, ln in enumerate(qlines) if ln.startswith('via Node:'))
+			loc, shown, mark = qlines[at + 1].strip(), qlines[at + 2][len('    >>> '):], qlines[at + 3][len('        '):]
+		except (StopIteration, IndexError):
+			failures.append({'clause': 'Quotation', 'detail': f'no quotation rendered for {type(node).__name__} at {sm}', 'text': 'wrapped layouts', 'kind': f'{type(node).__name__}:multi-line'})
+			continue
+		line = lines[bl - 1].replace('\t', ' ')
+		lo, hi = mark_range(bl, bc - 1, el, ec - 1, len(line))
+		want = ' ' * lo + '^' * (hi - lo)
+		if shown != line or mark != want or not loc.endswith(f':{bl}'):
+			shape = 'one-line' if bl == el else ('multi-line:end-right-of-begin' if ec > bc else 'multi-line:end-left-of-begin')
+			failures.append({'clause': 'Quotation', 'detail': f'{type(node).__name__} spanning ({bl},{bc})..({el},{ec}): quoted {shown!r} / {mark!r} at {loc}; the rule gives {line!r} / {want!r} line {bl}', 'text': 'wrapped layouts', 'kind': f'{shape}'})
+	return {'failures': failures, 'nodes': nodes}
+
+
 def _check_stmt_batch(args) -> dict:
 	return _guard(_check_stmt_batch_impl, args)
 
@@ -247,9 +306,17 @@ def run(ctx: Ctx) -> int:
 	with ProcessPoolExecutor(max_workers=16) as ex:
 		r1 = list(ex.map(_check_batch, [(cases[i:i + BATCH], i) for i in range(0, len(cases), BATCH)]))
 		r2 = list(ex.map(_check_stmt_batch, [(stmts[i:i + 60], i) for i in range(0, len(stmts), 60)]))
+		binary = [c for c in cases if c['ast']['k'] in ('bin', 'cmp', 'bool')][:400 if quick else 2000]
+		r4 = list(ex.map(_check_wrapped, [(binary[i:i + 40], i) for i in range(0, len(binary), 40)]))
 		modules = ['example.json', 'rogw.tranp.compatible.libralies.classes'] if quick else ['example.json', 'example.FW.string', 'rogw.tranp.compatible.libralies.classes', 'rogw.tranp.compatible.libralies.type', 'tests.unit.rogw.tranp.implements.cpp.transpiler.fixtures.fixture_py2cpp', 'tests.unit.rogw.tranp.semantics.fixtures.fixture_reflections', 'rogw.tranp.lang.di', 'rogw.tranp.errors']
 		r3 = list(ex.map(_real_module, modules))
-	failures = [f for r in r1 + r2 + r3 for f in r['failures']]
+	failures = [f for r in r1 + r2 + r3 + r4 for f in r['failures']]
+	# the harness's MarkRange is the specification's (table evaluated by TLC)
+	mres = tlc.run('PySrcEmit', 'PySrc_1.cfg', workers=1, timeout=300)
+	for row in (json.loads(x) for x in mres.lines('MARK ')):
+		if list(mark_range(0, row['bc'], 0 if row['same'] else 1, row['ec'], row['linelen'])) != list(row['range']):
+			raise Machinery(f'harness mark_range and PySrc.MarkRange disagree on {row}')
+	ctx.log(f'wrapped layouts: {sum(r["nodes"] for r in r4)} nodes of multi-line programs quoted by the MarkRange rule')
 	nodes = sum(r['nodes'] for r in r1)
 	ctx.log(f'{nodes} expression nodes (fresh + restored from the cache encoding), {len(stmts)} statements, {sum(r["nodes"] for r in r3)} nodes of {len(modules)} real modules: {len(failures)} discrepancies')
 	groups: dict[str, list] = {}
